@@ -1,5 +1,6 @@
-From WS Require Export corr.Srp.
+From WS Require Export corr.Srp corr.SrpBig.
 From WS Require Import model.Bigint.
-Definition run_C19_default := run_SRP_be Default.
-Definition run_C19_fast := run_SRP_be Fast.
+(* evaluated with the accelerated runner; corr/SrpBig.v proves run_SRP_big_be be = run_SRP_be be *)
+Definition run_C19_default := run_SRP_big_be Default.
+Definition run_C19_fast := run_SRP_big_be Fast.
 Definition run_C19 := run_C19_default.
